@@ -73,8 +73,9 @@ static void traj_case(Rng &r, const std::string &fmt) {
   bool vel = r.coin(), frc = r.coin();
   int bk = (int)r.below(3);   // 0 orthorhombic, 1 triclinic, 2 cubic
   int ck = (int)r.below(6);
-  if (ck == 4 && (fmt == "xyz" || fmt == "pdb")) ck = 1;
-  if (ck == 2 && (fmt == "xyz" || fmt == "pdb")) ck = 1;   // |x| < 10 nm keeps the %10.5f / %8.3f Angstrom fields apart
+  // pdb is a fixed-column format (%8.3f Angstrom): |x| < 10 nm keeps its fields apart.  xyz is read token by token: every magnitude is legal there
+  // (the restriction that used to be applied to xyz as well hid a writer that put no blank between its fields)
+  if ((ck == 4 || ck == 2) && fmt == "pdb") ck = 1;
   std::vector<Frame> frames(F);
   int tk = r.coin() ? 1 + (int)r.below(6) : 0;
   for (int k = 0; k < F; k++) {
